@@ -322,6 +322,23 @@ def run(ctx):
         res.add(Finding('C18', 'C18.e', 'R-CONTAIN', roles.start.file, roles.start.qualname, roles.start.node.lineno,
                         'metadata step position', 'the post-operation metadata step is not executed in the finally of the recording scope'))
 
+    # ... and what the user's extractor returned is what is merged: the wrapper the decorator hands to the scope passes the result on as it is
+    # (a rebuilt / filtered copy drops entries the user extracted - values that are falsy but meaningful, say)
+    from ..loader import expand_locals as _xl18
+    fac_params = set(fac.all_param_names) if hasattr(fac, 'all_param_names') else set(fac.params)
+    for nd_ in [x for x in ast.walk(cl.node) if isinstance(x, ast.FunctionDef) and x is not cl.node]:
+        ucalls = [c_ for c_ in ast.walk(nd_) if isinstance(c_, ast.Call) and isinstance(c_.func, ast.Name) and c_.func.id in fac_params and
+                  'extract' in c_.func.id]
+        if len(ucalls) != 1:
+            continue
+        rets = [r_ for r_ in ast.walk(nd_) if isinstance(r_, ast.Return) and r_.value is not None]
+        as_is = bool(rets) and all(norm(_xl18(nd_, r_.value)) == norm(ucalls[0]) for r_ in rets)
+        ce.instance('the wrapper around the user\'s extractor returns its result unchanged', cl.qualname, as_is)
+        if not as_is:
+            bad_r = [r_ for r_ in rets if norm(_xl18(nd_, r_.value)) != norm(ucalls[0])]
+            res.add(Finding('C18', 'C18.e', 'R-CONTAIN', cl.file, cl.qualname, (bad_r[0] if bad_r else nd_).lineno, norm(bad_r[0].value)[:90] if bad_r else nd_.name,
+                            'the decorator does not hand the result of the user\'s metadata extractor on as it is (`%s`): entries the user extracted are '
+                            'dropped or rewritten before they reach the recording\'s metadata' % (norm(bad_r[0].value)[:70] if bad_r else nd_.name)))
     # ---- C18.f lookup helper
     lk = None
     for m in ctx.repo.modules.values():
